@@ -50,10 +50,11 @@ class C11Bounded(Bounded):
         from sigma.backends.test import TextQueryTestBackend
         from sigma.exceptions import SigmaError
         rule_dets = [({"sel": {"a": 1}}, "sel"), ({"sel": {"a": 1}, "filter_x": {"b": 2}}, "sel and not 1 of filter_*"), ({"s1": {"a": 1}, "s2": {"c": 3}}, "1 of them"),
-                     ({"sel_proc": {"a": 1}, "x_proc": {"c": 3}}, "all of *_proc"), ({"notepad": {"a": 1}, "2sel": {"d": 4}}, "notepad or 2sel"), ({"_u": {"a": 1}, "v": {"c": 3}}, "1 of _* and v")]
+                     ({"sel_proc": {"a": 1}, "x_proc": {"c": 3}}, "all of *_proc"), ({"notepad": {"a": 1}, "2sel": {"d": 4}}, "notepad or 2sel"), ({"_u": {"a": 1}, "v": {"c": 3}}, "1 of _* and v"),
+                     ({"s1": {"a": 1}, "s2": {"c": 3}, "s3": {"e": 5}}, "(s1 and s2) or (s3 and not s2)"), ({"s1": {"a": 1}, "s2": {"c": 3}}, "(s1) or (s2)")]
         filt_dets = [({"sel": {"u": "adm"}}, "not sel"), ({"sel": {"u": "adm"}, "svc_proc": {"i": "x"}}, "not (sel or svc_proc)"), ({"f1": {"u": 1}, "f2": {"w": 2}}, "not 1 of them"),
                      ({"f_a": {"u": 1}, "f_b": {"w": 2}}, "not all of f_*"), ({"a_allow": {"u": 1}, "b_allow": {"w": 2}}, "not 1 of *_allow"), ({"2sel": {"u": 1}}, "not 2sel"),
-                     ({"_sel": {"u": 1}}, "not _sel"), ({"android": {"u": 1}}, "not android"), ({"sel": {"u": 1}}, "sel")]
+                     ({"_sel": {"u": 1}}, "not _sel"), ({"android": {"u": 1}}, "not android"), ({"sel": {"u": 1}}, "sel"), ({"f1": {"u": 1}, "f2": {"w": 2}}, "(not f1) or (not f2)")]
         logsources = [({"category": "c", "product": "p"}, {"category": "c"}), ({"category": "c", "product": "p"}, {"product": "p"}), ({"category": "c"}, {"category": "c", "product": "p"}),
                       ({"category": "c", "product": "p", "service": "s"}, {"category": "c", "product": "p", "service": "s"}), ({"category": "c"}, {"category": "d"})]
         targets = ["any", "byname", "byid", "byID_upper", "other"]
